@@ -64,6 +64,39 @@ try:
     res['demo_changed_tail'] = o1[-600:]
     if run_tests:
         ids = stable_ids()
+        if '--all-tests' not in sys.argv:
+            # only the stable tests whose file mentions a touched module (the full stable set takes 10-35 min)
+            import re
+            touched = set(re.findall(r'^\+\+\+ b/(\S+)', open(os.path.join(vdir, 'patch.diff')).read(), re.M))
+            keys = set()
+            for t in touched:
+                base = os.path.basename(t)[:-3]
+                keys.add(base)
+                keys.add(t[:-3].replace('/', '.'))
+            extra = {'samplers': ['Rejection', 'SMC', 'elfi.Rejection'], 'parameter_inference': ['Rejection', 'BOLFI', 'BayesianOptimization', 'SMC'],
+                     'client': ['Rejection', 'BatchHandler', 'generate('], 'executor': ['generate('], 'compiler': ['generate('], 'loader': ['generate('],
+                     'elfi_model': ['elfi.'], 'graphical_model': ['elfi.'], 'utils': ['elfi.'], 'store': ['Pool', 'store'],
+                     'acquisition': ['acquisition', 'BOLFI', 'BayesianOptimization'], 'bolfi': ['BOLFI', 'BayesianOptimization'],
+                     'gpy_regression': ['GPyRegression', 'BOLFI', 'BayesianOptimization'], 'posteriors': ['BOLFI', 'Posterior', 'romc'],
+                     'mcmc': ['mcmc', 'BOLFI'], 'results': ['Sample', 'results'], 'extensions': ['ModelPrior', 'SMC', 'BOLFI'],
+                     'augmenter': ['ModelPrior', 'augmenter'], 'tools': ['tools', 'vectorize'], 'romc': ['romc', 'ROMC'], 'bsl': ['bsl', 'BSL'],
+                     'pdf_methods': ['pdf_methods', 'syn_likelihood'], 'post_processing': ['post_processing', 'adjust'],
+                     'model_selection': ['compare_models']}
+            for k in list(keys):
+                keys.update(extra.get(k, []))
+            sel = []
+            cache = {}
+            for i in ids:
+                fpath = os.path.join(scratch, i.split('::')[0])
+                if fpath not in cache:
+                    try:
+                        cache[fpath] = open(fpath).read()
+                    except OSError:
+                        cache[fpath] = ''
+                if any(k in cache[fpath] for k in keys):
+                    sel.append(i)
+            res['stable_tests_selected'] = len(sel)
+            ids = sel or ids[:5]
         t0 = time.time()
         rc, out = sh('/venv/bin/python -m pytest -q -p no:cacheprovider --timeout=900 -x ' + ' '.join("'%s'" % i for i in ids) + ' 2>&1 | tail -5',
                      cwd=scratch, timeout=7200)
